@@ -151,4 +151,19 @@ def c12 (args res : List String) : Verdict :=
       vOk s!"hist{if has 'd' then "-done" else ""}{if has 'x' then "-cancel" else ""}{if has 'k' then "-kill" else ""}{if np < 10 then "-endgame" else "-normal"}"
   | _, _ => vBad (joinToks args)
 
+/-- The manager histories as C02 reads them: T3 (the number of pieces not owned never goes up) is evaluated on the
+    implementation's own snapshots first; the correspondence with the manager model (on which T2/T3 are proved) is
+    the C12 comparison. -/
+def c02hist (args res : List String) : Verdict :=
+  match res with
+  | [outs] =>
+    let counts := (outs.splitOn ";").filterMap fun out =>
+      match out.splitOn "|" with
+      | [_, stS, _] => (parseStatuses stS).map stillMissing
+      | _ => none
+    if (counts.zip (counts.drop 1)).any (fun (a, b) => decide (a < b)) then
+      vProp "T3-number-of-missing-pieces-increased" "hist"
+    else c12 ("hist" :: args) res
+  | _ => vBad (joinToks args)
+
 end Driver
